@@ -191,7 +191,21 @@ pub fn gen_samples(rng: &mut Rng, n: usize, k: usize, o: &GenomeOpts, prefix: &s
             }
         }
     }
-    let sites: Vec<usize> = (0..o.snp_sites).map(|_| rng.below(o.len)).collect();
+    let mut sites: Vec<usize> = (0..o.snp_sites).map(|_| rng.below(o.len)).collect();
+    if !sites.is_empty() && rng.chance(35) {
+        // some sites get a partner exactly k-2 .. k+1 bases further on: the window after the first
+        // is then the window before the second, or misses / overlaps it by one base
+        let mut partners = vec![];
+        for &p in &sites {
+            if rng.chance(40) {
+                let d = [k - 2, k - 1, k, k + 1][rng.below(4)];
+                if p + d < o.len {
+                    partners.push(p + d);
+                }
+            }
+        }
+        sites.extend(partners);
+    }
     let mut out = vec![];
     for i in 0..n {
         let mut s = anc.clone();
